@@ -19,6 +19,7 @@ import faulthandler
 VERIF = os.path.dirname(os.path.dirname(os.path.abspath(__file__)))
 REPO = os.environ.get("VERIF_REPO", "/repo")
 NPROC = int(os.environ.get("VERIF_WORKERS", "0")) or min(16, os.cpu_count() or 4)
+OUT = os.environ.get("VERIF_OUT", VERIF)      # where evidence/ and replays/ are written (self-tests redirect it)
 
 
 class HarnessError(Exception):
@@ -377,8 +378,8 @@ def eprint(*a):
 
 
 def write_evidence(prop, doc):
-    os.makedirs(os.path.join(VERIF, "evidence"), exist_ok=True)
-    p = os.path.join(VERIF, "evidence", "%s.json" % prop)
+    os.makedirs(os.path.join(OUT, "evidence"), exist_ok=True)
+    p = os.path.join(OUT, "evidence", "%s.json" % prop)
     tmp = p + ".tmp"
     with open(tmp, "w") as f:
         json.dump(doc, f, indent=1, sort_keys=True, default=_json_default)
@@ -507,13 +508,16 @@ def run_check(sim, prop, tier, verif_seed, n_runs=None, seconds=None, level="exp
             by_class.setdefault(v["class"], []).append((r, v))
     reported = []
     known_hits = {}
-    os.makedirs(os.path.join(VERIF, "replays"), exist_ok=True)
+    os.makedirs(os.path.join(OUT, "replays"), exist_ok=True)
     for vclass in sorted(by_class):
         r, v = by_class[vclass][0]
         eprint("[%s] violation class %s in %d runs; minimising run %d (seed %d)"
                % (prop, vclass, len(by_class[vclass]), r["idx"], r["seed"]))
-        budget = 600 if len(reported) < 4 else 60
-        st, m = fork_call(_minimise_entry, (sim, prop, r["trace"], vclass, budget), timeout=1800)
+        n_min = len(reported) + len(known_hits)
+        if n_min < 3:
+            st, m = fork_call(_minimise_entry, (sim, prop, r["trace"], vclass, 600), timeout=1800)
+        else:       # further classes of the same batch: reported with their original (unshrunk) trace
+            st, m = "ok", {"trace": r["trace"], "violations": r["violations"], "spent": 0, "digest": r["digest"]}
         if st != "ok":
             harness_errors.append("minimiser failed for %s: %s %s" % (vclass, st, m))
             m = {"trace": r["trace"], "violations": r["violations"], "spent": 0, "digest": r["digest"]}
@@ -522,14 +526,14 @@ def run_check(sim, prop, tier, verif_seed, n_runs=None, seconds=None, level="exp
             harness_errors.append("minimised trace lost violation %s" % vclass)
             continue
         ent = match_known(prop, mv[0], known)
-        path = os.path.join(VERIF, "replays", "%s-%d.json" % (prop, r["seed"]))
+        path = os.path.join(OUT, "replays", "%s-%d.json" % (prop, r["seed"]))
         if ent is None:
             k = 0
             while os.path.exists(path) and k < 50:
                 k += 1
-                path = os.path.join(VERIF, "replays", "%s-%d-%d.json" % (prop, r["seed"], k))
+                path = os.path.join(OUT, "replays", "%s-%d-%d.json" % (prop, r["seed"], k))
         else:
-            path = os.path.join(VERIF, "replays", "known-%s-%s.json" % (prop, ent["id"]))
+            path = os.path.join(OUT, "replays", "known-%s-%s.json" % (prop, ent["id"]))
         doc = {"property": prop, "seed": r["seed"], "verif_seed": verif_seed, "run_index": r["idx"],
                "violation_class": vclass, "violation": mv[0], "digest": m["digest"],
                "minimiser_candidates": m["spent"], "trace": m["trace"]}
@@ -553,7 +557,7 @@ def run_check(sim, prop, tier, verif_seed, n_runs=None, seconds=None, level="exp
             reported.append((vclass, mv[0], path, len(by_class[vclass])))
     for kid, (ent, cnt, path) in sorted(known_hits.items()):
         print("KNOWN-FINDING: property=%s %s [%s; %d runs; replay=%s]"
-              % (prop, ent["what"], kid, cnt, os.path.relpath(path, VERIF)))
+              % (prop, ent["what"], kid, cnt, os.path.relpath(path, OUT)))
     for vclass, v, path, cnt in reported:
         print("VIOLATION property=%s replay=%s class=%s runs=%d detail=%s"
               % (prop, path, vclass, cnt, json.dumps(v.get("detail"), default=str)[:600]))
